@@ -119,6 +119,15 @@ def oracle(case, ctx):
                            % (case["base"], grid, i, p, float(res.loc[i, mcol]), s)))
     if discs:
         return discs
+    # the rank column orders the candidates exactly like their mean scores (ties share a rank)
+    rcol = "rank_" + col
+    if rcol in res.columns:
+        want_rank = pd.Series(exp_scores).rank(ascending=not gib).tolist()
+        got_rank = [float(v) for v in res[rcol].tolist()]
+        if got_rank != want_rank:
+            discs.append(D("rank_column_not_order_of_scores:%s" % ("greater_is_better" if gib else "loss"),
+                           "scores %s ranks %s expected %s" % (exp_scores, got_rank, want_rank)))
+            return discs
     best = max(exp_scores) if gib else min(exp_scores)
     tied = [i for i, s in enumerate(exp_scores) if np.isclose(s, best, rtol=1e-12, atol=0)]
     bi = sut(lambda: int(tuner.best_index_))
@@ -223,10 +232,10 @@ def cases(draw):
         "n_iter": draw(st.integers(1, 6)), "rs": draw(st.integers(0, 10 ** 6)),
         "values": draw(gen.series_values(n, n, lo=5.0, hi=300.0)),
         "start": draw(gen.index_start), "index_kind": draw(gen.index_kind),
-        "metric": draw(st.sampled_from(["smape", "mape_asym", "mse", "ratio", "ratio"])),
+        "metric": draw(st.sampled_from(["smape", "mape_asym", "mse", "mse", "ratio", "ratio"])),
         "refit": draw(st.sampled_from([True, True, False])),
         "strategy": draw(st.sampled_from(["refit", "refit", "update"])),
-        "scale": draw(st.sampled_from([1.0, 1.0, 1.0, 1e-4, 1e-3, 1e4])),
+        "scale": draw(st.sampled_from([1.0, 1.0, 1e-6, 1e-4, 1e-3, 1e4])),
     }
 
 
